@@ -343,8 +343,11 @@ async fn remote_replies(mon: &Monitor, rng: &mut Rng) {
     use memnet::*;
     use saorsa_core::dht_network_manager::{DhtNetworkOperation, DhtNetworkResult};
     use std::time::Duration;
-    let n = rng.urange(2, mon.by_tier(10, 16));
-    let topo = *rng.pick(&TOPOS);
+    // large full meshes overflow the first buckets (8 entries each), which leaves connected peers
+    // outside the routing table: the reply must still be exact over table + connected peers
+    let big = rng.chance(0.35);
+    let n = if big { rng.urange(18, 30) } else { rng.urange(2, mon.by_tier(10, 16)) };
+    let topo = if big { Topo::FullMesh } else { *rng.pick(&TOPOS) };
     let cfg = NodeCfg { request_timeout: Duration::from_secs(2), connection_timeout: Duration::from_secs(1), aligned_ids: rng.chance(0.8), ..Default::default() };
     let Ok(w) = World::build(rng, n, topo, &cfg).await else {
         mon.inconclusive("world build failed");
